@@ -1364,7 +1364,12 @@ impl<'a> TokenBasedLuaGenerator<'a> {
                     if let Some(token) = string_segment.get_token() {
                         self.write_token(token);
                     } else {
-                        self.write_symbol(&utils::write_interpolated_string_segment(string_segment))
+                        // inside the string no space can be added, and a segment may have an
+                        // empty value (`\z` followed by spaces only)
+                        let content = utils::write_interpolated_string_segment(string_segment);
+                        if !content.is_empty() {
+                            self.write_symbol_without_space_check(&content);
+                        }
                     }
                 }
                 InterpolationSegment::Value(value) => {
